@@ -203,6 +203,20 @@ func runC19(c *kit.Ctx) {
 			for _, s := range sortSites(c.CallSites(obj)) {
 				n++
 				arg := s.Instr.Common().Args[len(s.Instr.Common().Args)-1]
+				// a constant false is only acceptable where the function never learns the flag
+				if kit.Canon(arg).IsConstBool(false) {
+					knows := false
+					kit.Instrs(s.Fn, func(ins ssa.Instruction) {
+						if v, ok := ins.(ssa.Value); ok && kit.Canon(v).IsField(fPrivate) {
+							knows = true
+						}
+					})
+					if knows {
+						n++
+						c.Bad("R19.3", k.key(s.Fn, "private flag to "+obj.Name()), posOf(s.Instr), "constant false passed as private flag to %s although %s reads Info.Private (flag evaluated before the metainfo is parsed): a private torrent gets the public identity", obj.Name(), kit.FuncName(s.Fn))
+						continue
+					}
+				}
 				c.Check(fromPrivate(arg), "R19.3", k.key(s.Fn, "private flag to "+obj.Name()), posOf(s.Instr),
 					"private flag originates from Info.Private (false when metadata is unknown)", "private flag passed to "+obj.Name()+" ("+kit.Canon(arg).String()+") does not originate from Info.Private")
 			}
